@@ -23,7 +23,7 @@ def draw_hash(rng, m_hint=8):
     return {"hash": rng.weighted(HASH_WEIGHTS), "hseed": rng.below(1 << 16), "squeeze": rng.between(1, max(1, min(4, m_hint)))}
 
 
-def api_add(obj, key, alt=False, n=None, force=None, tracked=False, hasher=None):
+def api_add(obj, key, alt=False, n=None, force=None, tracked=False, hasher=None, longer=0):
     """add through one of the two public spellings: add(key, ...) or add_alt(hashes(key), ...).  Default arguments
     are left to the library whenever the value asked for is the documented default."""
     if not alt:
@@ -33,6 +33,9 @@ def api_add(obj, key, alt=False, n=None, force=None, tracked=False, hasher=None)
             return obj.add(key, force)
         return obj.add(key)
     hs = (hasher or obj).hashes(key)
+    if longer:
+        # a list computed once at a larger depth (strategies are prefix-stable): plain Bloom filters use its prefix
+        hs = (hasher or obj).hashes(key, len(hs) + longer)
     args = ([key] if tracked else []) + [hs]
     if n is not None and n != 1:
         args.append(n)
@@ -49,10 +52,14 @@ def api_remove(obj, key, n, alt=False, tracked=False):
     return obj.remove_alt(*args)
 
 
-def api_check(obj, key, alt=False, hasher=None):
+def api_check(obj, key, alt=False, hasher=None, longer=0):
     if not alt:
         return obj.check(key)
-    return obj.check_alt((hasher or obj).hashes(key))
+    h = hasher or obj
+    hs = h.hashes(key)
+    if longer:
+        hs = h.hashes(key, len(hs) + longer)
+    return obj.check_alt(hs)
 
 
 class Env:
@@ -73,10 +80,20 @@ class Env:
             self.scr.cleanup()
 
 
+def byteslike(payload, variant):
+    """The bytes channel accepts any ByteString: bytes, bytearray or memoryview."""
+    if variant == 1:
+        return bytearray(payload)
+    if variant == 2:
+        return memoryview(payload)
+    return payload
+
+
 class Subject:
     name = "?"
     channels = ("bytes", "path", "fileobj")
     ext = "bin"
+    variant = 0  # which ByteString flavour the next bytes-channel load uses (set by the scenario)
 
     def __init__(self, env, cfg):
         self.env = env
@@ -147,7 +164,7 @@ class BloomSubject(Subject):
 
     def apply_op(self, st):
         if st["op"] == "add":
-            api_add(self.obj, seams.key_of(st["k"]), st.get("alt"))
+            api_add(self.obj, seams.key_of(st["k"]), st.get("alt"), longer=self.longer(st["k"]))
             self.model[st["k"]] = 1
             self.total_adds += 1
             return None
@@ -169,7 +186,7 @@ class BloomSubject(Subject):
         C = self.cls()
         hf = self.env.hf
         if chan in ("bytes", "fileobj"):
-            return C.frombytes(payload, hash_function=hf)
+            return C.frombytes(byteslike(payload, self.variant), hash_function=hf)
         if chan == "path":
             d, name = where
             return C(filepath=self.env.scr.spell(d, name, style), hash_function=hf)
@@ -188,9 +205,13 @@ class BloomSubject(Subject):
             "geom": [o.number_bits, o.number_hashes, o.estimated_elements, o.bloom_length, o.export_size(),
                      repr(o.false_positive_rate)],
             "count": o.elements_added,
-            "answers": [int(api_check(o, seams.key_of(k), alt=bool(k % 2))) for k in self.probe_keys()],
+            "answers": [int(api_check(o, seams.key_of(k), alt=bool(k % 2), longer=self.longer(k))) for k in self.probe_keys()],
             "contains": [seams.key_of(k) in o for k in self.probe_keys()[:4]],
         }
+
+    def longer(self, k):
+        # only the plain (bit) filters take a prefix of the list; the counting filter reads every entry it is given
+        return 0 if self.name == "CountingBloomFilter" else (0, 0, 3)[k % 3]
 
 
 class OnDiskSubject(BloomSubject):
@@ -325,7 +346,7 @@ class ExpandingSubject(Subject):
     def load(self, payload, chan, where=None, style="abs"):
         C = self.cls()
         if chan in ("bytes", "fileobj"):
-            return C.frombytes(payload, hash_function=self.env.hf)
+            return C.frombytes(byteslike(payload, self.variant), hash_function=self.env.hf)
         if chan == "path":
             d, name = where
             return C(filepath=self.env.scr.spell(d, name, style), hash_function=self.env.hf)
@@ -336,7 +357,8 @@ class ExpandingSubject(Subject):
         return {
             "geom": [o.expansions, o.estimated_elements, repr(common.f32(o.false_positive_rate))],
             "count": o.elements_added,
-            "answers": [int(api_check(o, seams.key_of(k), alt=bool(k % 2), hasher=self.hasher)) for k in self.probe_keys()],
+            "answers": [int(api_check(o, seams.key_of(k), alt=bool(k % 2), hasher=self.hasher, longer=(0, 0, 2)[k % 3]))
+                        for k in self.probe_keys()],
             "contains": [seams.key_of(k) in o for k in self.probe_keys()[:4]],
         }
 
@@ -376,7 +398,7 @@ class RotatingSubject(ExpandingSubject):
     def load(self, payload, chan, where=None, style="abs"):
         C = self.cls()
         if chan in ("bytes", "fileobj"):
-            return C.frombytes(payload, max_queue_size=self.cfg["mqs"], hash_function=self.env.hf)
+            return C.frombytes(byteslike(payload, self.variant), max_queue_size=self.cfg["mqs"], hash_function=self.env.hf)
         if chan == "path":
             d, name = where
             return C(filepath=self.env.scr.spell(d, name, style), max_queue_size=self.cfg["mqs"], hash_function=self.env.hf)
@@ -482,7 +504,7 @@ class SketchSubject(Subject):
         C = self.cls()
         kw = self.ctor_kwargs()
         if chan in ("bytes", "fileobj"):
-            return C.frombytes(payload, hash_function=self.env.hf, **kw)
+            return C.frombytes(byteslike(payload, self.variant), hash_function=self.env.hf, **kw)
         if chan == "path":
             d, name = where
             return C(filepath=self.env.scr.spell(d, name, style), hash_function=self.env.hf, **kw)
